@@ -106,3 +106,8 @@ End PinC15.
 From BT Require Proofs.EntryC15Glue.
 Check Proofs.EntryC15Glue.tool_run_shared_eq.
 
+
+From BT Require Generated.Consts Model.Entry_C15.
+Check (C15.C15_constants_from_source :
+  Entry_C15.MAX_BW_FDS = 976%nat /\ (2 <= Entry_C15.MAX_BW_FDS)%nat /\
+  MergeTool.s_dot_bw = Consts.MERGE_SUFFIX_BW /\ MergeTool.s_dot_bigwig = Consts.MERGE_SUFFIX_BIGWIG /\ MergeTool.s_dot_bedgraph = Consts.MERGE_SUFFIX_BEDGRAPH).
